@@ -87,7 +87,7 @@ type Frame struct {
 	depth   int
 	bind    []Value // free-variable bindings (closures)
 	// range-over-map iteration state: Range instr -> (keys array, n, pos)
-	iters map[ssa.Value]*iterState
+	iters     map[ssa.Value]*iterState
 	panicking bool
 }
 
@@ -125,21 +125,31 @@ func (f *Frame) clone() *Frame {
 }
 
 type State struct {
-	script   *Script
-	heap     map[string]Term
-	epoch    int // bumped by "havoc everything": untouched keys then start from H<epoch>
-	frames   []*Frame
-	trace    []Event
-	locks    []LockHeld
-	allocTop Term
-	now      Term
-	pcs      []string
-	notes    []string
-	fresh    map[string]bool // refs allocated on this path (term text)
+	script    *Script
+	heap      map[string]Term
+	epoch     int // bumped by "havoc everything": untouched keys then start from H<epoch>
+	epochSeq  int // seq at which the current epoch began
+	frames    []*Frame
+	trace     []Event
+	locks     []LockHeld
+	allocTop  Term
+	now       Term
+	pcs       []string
+	notes     []string
+	fresh     map[string]bool // refs allocated on this path (term text)
 	published map[string]bool
-	pathID   string
-	spawned  []spawnRec
-	facts    map[string]bool
+	pathID    string
+	spawned   []spawnRec
+	facts     map[string]bool
+	arrVals   map[string]Value    // "base|idx" -> value stored in a freshly allocated array (static knowledge)
+	seq       int                 // logical time: bumped by allocations and havocs
+	freshSeq  map[string]int      // fresh ref -> seq at allocation
+	roots     map[string]rootInfo // heap key -> unknown array constant underlying the current version
+}
+
+type rootInfo struct {
+	t   Term
+	seq int
 }
 
 func (st *State) clone() *State {
@@ -167,6 +177,18 @@ func (st *State) clone() *State {
 	n.facts = make(map[string]bool, len(st.facts))
 	for k, v := range st.facts {
 		n.facts[k] = v
+	}
+	n.arrVals = make(map[string]Value, len(st.arrVals))
+	for k, v := range st.arrVals {
+		n.arrVals[k] = v
+	}
+	n.freshSeq = make(map[string]int, len(st.freshSeq))
+	for k, v := range st.freshSeq {
+		n.freshSeq[k] = v
+	}
+	n.roots = make(map[string]rootInfo, len(st.roots))
+	for k, v := range st.roots {
+		n.roots[k] = v
 	}
 	return &n
 }
@@ -215,30 +237,30 @@ type Decl struct {
 }
 
 type Exec struct {
-	eng     *Engine
-	fn      *ssa.Function
-	counter int
-	decls   []Decl
-	declIdx map[string]int
-	obls    []*Obligation
-	pathN   int
-	keySort map[string]Sort // heap key -> array sort
-	abstractions map[string]bool
-	usedAssumed  map[string]bool
-	inlined      map[string]bool
-	budget       int
-	epochs       int
-	disc         *discoverCtx
-	trivial      int
-	aborted      bool
-	pathIDs      map[string]int
-	loopCache    map[*ssa.Function]map[int]*loopInfo
-	specErrors   []string
-	top          *topCtx
+	eng           *Engine
+	fn            *ssa.Function
+	counter       int
+	decls         []Decl
+	declIdx       map[string]int
+	obls          []*Obligation
+	pathN         int
+	keySort       map[string]Sort // heap key -> array sort
+	abstractions  map[string]bool
+	usedAssumed   map[string]bool
+	inlined       map[string]bool
+	budget        int
+	epochs        int
+	disc          *discoverCtx
+	trivial       int
+	aborted       bool
+	pathIDs       map[string]int
+	loopCache     map[*ssa.Function]map[int]*loopInfo
+	specErrors    []string
+	top           *topCtx
 	usedContracts map[string]bool
-	modelled     map[string]bool
-	checkLocks   bool
-	pathsDone    int
+	modelled      map[string]bool
+	checkLocks    bool
+	pathsDone     int
 }
 
 func (e *Exec) freshName(hint string) string {
@@ -340,6 +362,15 @@ func (e *Exec) cur(st *State, key string, leafSort Sort, two bool) Term {
 	s := e.heapSort(key, leafSort, two)
 	t := e.declare(h0Name(key, st.epoch), s)
 	st.heap[key] = t
+	st.roots[key] = rootInfo{t, st.epochSeq}
+	e.rootWF(st, key, t, two)
+	if strings.HasPrefix(key, "ghost:") && !strings.Contains(key, "$") && !two {
+		for ref, seq := range st.freshSeq {
+			if seq > st.epochSeq {
+				st.assert(Eq(Select(t, Term{ref, SInt}), zeroOf(leafSort)))
+			}
+		}
+	}
 	return t
 }
 
@@ -351,6 +382,20 @@ func (e *Exec) curIn(snap *HeapView, key string, leafSort Sort, two bool) Term {
 	}
 	s := e.heapSort(key, leafSort, two)
 	return e.declare(h0Name(key, snap.epoch), s)
+}
+
+// rootWF: type invariants of an unknown heap array: slice lengths and offsets
+// stored anywhere are non-negative and bounded by the address space.
+func (e *Exec) rootWF(st *State, key string, t Term, two bool) {
+	if two || elemSort(t.Sort) != SInt {
+		return
+	}
+	if strings.HasSuffix(key, "#len") {
+		st.assert(Term{fmt.Sprintf("(forall ((r Int)) (! (and (<= 0 (select %s r)) (<= (select %s r) 140737488355328)) :pattern ((select %s r))))", t.S, t.S, t.S), SBool})
+	}
+	if strings.HasSuffix(key, "#off") {
+		st.assert(Term{fmt.Sprintf("(forall ((r Int)) (! (<= 0 (select %s r)) :pattern ((select %s r))))", t.S, t.S), SBool})
+	}
 }
 
 func (e *Exec) setHeap(st *State, key string, t Term) {
@@ -368,10 +413,19 @@ func (e *Exec) placeIndex(p *Place) Term {
 func (e *Exec) loadPlace(st *State, p *Place, snap *HeapView) Value {
 	keys, leaves, two := placeLeaves(p)
 	v := Value{T: p.Typ, L: make([]Term, len(leaves))}
+	fseq, isFresh := st.freshSeq[p.Base.S]
 	for i, k := range keys {
 		var arr Term
 		if snap == nil {
 			arr = e.cur(st, k, leaves[i].Sort, two)
+			// memory beyond the allocation frontier reads as zero: an object
+			// allocated after the unknown array constant was introduced has a
+			// zero entry in that constant
+			if isFresh && !two {
+				if r, ok := st.roots[k]; ok && r.seq < fseq {
+					st.assert(Eq(Select(r.t, p.Base), zeroOf(leaves[i].Sort)))
+				}
+			}
 		} else {
 			arr = e.curIn(snap, k, leaves[i].Sort, two)
 		}
@@ -387,6 +441,9 @@ func (e *Exec) loadPlace(st *State, p *Place, snap *HeapView) Value {
 }
 
 func (e *Exec) storePlace(st *State, p *Place, v Value) {
+	if p.Kind == PElem && p.Root == nil && st.fresh[p.Base.S] && isLit(p.Idx) {
+		st.arrVals[p.Base.S+"|"+p.Idx.S] = v
+	}
 	keys, leaves, two := placeLeaves(p)
 	if len(v.L) != len(leaves) {
 		panic(fmt.Sprintf("storePlace: %s has %d leaves, value of %v has %d", p, len(leaves), v.T, len(v.L)))
@@ -436,6 +493,17 @@ func (e *Exec) alloc(st *State, hint string) Term {
 	r := e.define(st, "new."+hint, Add(st.allocTop, One))
 	st.allocTop = r
 	st.fresh[r.S] = true
+	st.seq++
+	st.freshSeq[r.S] = st.seq
+	// memory beyond the allocation frontier reads as zero in every unknown
+	// ghost array that already exists on this path
+	for k, root := range st.roots {
+		if strings.HasPrefix(k, "ghost:") && !strings.Contains(k, "$") {
+			if es := elemSort(root.t.Sort); es == SBool || es == SInt || es == SStr {
+				st.assert(Eq(Select(root.t, r), zeroOf(es)))
+			}
+		}
+	}
 	return r
 }
 
@@ -443,6 +511,9 @@ func (e *Exec) alloc(st *State, hint string) Term {
 func (e *Exec) havocKey(st *State, key string, leafSort Sort, two bool) {
 	s := e.heapSort(key, leafSort, two)
 	st.heap[key] = e.freshConst("Hv."+key, s)
+	st.seq++
+	st.roots[key] = rootInfo{st.heap[key], st.seq}
+	e.rootWF(st, key, st.heap[key], two)
 }
 
 // havocAt replaces one object's entry in a heap array.
@@ -468,8 +539,13 @@ func (e *Exec) havocAll(st *State) {
 		}
 	}
 	st.epoch = e.nextEpoch()
+	st.seq++
+	st.epochSeq = st.seq
 	for k := range st.heap {
 		delete(st.heap, k)
+	}
+	for k := range st.roots {
+		delete(st.roots, k)
 	}
 	for _, m := range mono {
 		nw := e.cur(st, m.k, elemSort(m.t.Sort), false)
